@@ -64,6 +64,8 @@ fn parse(s: &str) -> Option<Vec<AV>> {
 }
 
 thread_local! {
+    /// panics swallowed by the executor in cancelled renders (observation only)
+    static CANCELLED_PANICS: std::cell::Cell<usize> = const { std::cell::Cell::new(0) };
     /// live reactive nodes at the start of every render closure of the current case
     static NODE_COUNTS: RefCell<Vec<usize>> = const { RefCell::new(Vec::new()) };
     /// the first sample per mode (sync / blocking / streaming use three different roots)
@@ -181,6 +183,12 @@ fn render_sync(vs: &[AV]) -> Result<String, String> {
 
 /// blocking render: (number of events after which the future returned, html) or "hang"
 fn render_block(vs: &[AV], events: &[String]) -> Result<(Option<usize>, String), String> {
+    render_block_opt(vs, events, false)
+}
+
+/// `abandon`: after the given events the render future is dropped (a cancelled request) and nothing else
+/// is completed: whatever it left on the thread is there when the next render starts
+fn render_block_opt(vs: &[AV], events: &[String], abandon: bool) -> Result<(Option<usize>, String), String> {
     let vs = vs.to_vec();
     let events = events.to_vec();
     catch(move || {
@@ -202,6 +210,11 @@ fn render_block(vs: &[AV], events: &[String]) -> Result<(Option<usize>, String),
                 if at.is_none() && done.borrow().is_some() { at = Some(k + 1); }
             }
             let html = done.borrow_mut().take();
+            if abandon {
+                h.abort();
+                drain().await;
+                return (at, if at.is_some() { html.unwrap_or_default() } else { String::new() });
+            }
             // do not abandon a render half-way (its scope would stay on the thread): let it finish
             let rest: Vec<String> = s.task.keys().map(|t| format!("c{t}")).chain(s.res.keys().map(|r| format!("r{r}"))).collect();
             for e in rest { s.fire(&e); drain().await; }
@@ -373,7 +386,8 @@ fn exec(line: &str) -> (String, Option<String>, bool) {
     let obs = exec_mode(mode, &vs, &events, &mut verdict);
     // the first render closure of the case belongs to `mode`
     if let Some(n) = NODE_COUNTS.with(|c| c.borrow().first().copied()) {
-        let first = FIRST_COUNT.with(|f| *f.borrow_mut().entry(mode.to_string()).or_insert(n));
+        let root_of = if mode == "blockdrop" { "block" } else { mode };
+        let first = FIRST_COUNT.with(|f| *f.borrow_mut().entry(root_of.to_string()).or_insert(n));
         if n != first {
             verdict.get_or_insert(format!("[ssr-node-count] {n} live reactive nodes at the start of this {mode} render, {first} at the start of the first one on this thread"));
         }
@@ -407,6 +421,28 @@ fn exec_mode(mode: &str, vs: &[AV], events: &[String], verdict_out: &mut Option<
             }
             Err(m) => { verdict = Some(format!("[ssr-panic] blocking render panicked: {m}")); "panic".into() }
         },
+        // a blocking render cancelled after `events` (the future is dropped), then a complete blocking render
+        // of the same view: it must look like any first render (C12: whatever was rendered before)
+        "blockdrop" => {
+            let first = render_block_opt(&vs, &events, true);
+            // the wait-effect of a cancelled render panics inside the executor when its suspense resolves
+            // later (`tx.send(()).ok().unwrap()` with the receiver gone); tokio swallows it and the next
+            // render re-initialises the root: recorded as an observation (DESIGN R.4), not judged here
+            let n = crate::asyncx::PANIC_LOG.with(|p| p.borrow_mut().drain(..).count());
+            if n > 0 { CANCELLED_PANICS.with(|c| c.set(c.get() + n)); }
+            let (mut tasks, mut ress) = (vec![], vec![]);
+            collect(&vs, &mut tasks, &mut ress);
+            let full: Vec<String> = tasks.iter().map(|t| format!("c{t}")).chain(ress.iter().map(|r| format!("r{r}"))).collect();
+            NODE_COUNTS.with(|c| c.borrow_mut().clear());
+            match render_block(&vs, &full) {
+                Ok((at, h)) => {
+                    if at.is_some() { verdict = key_discipline(&h); }
+                    if let Err(m) = first { verdict.get_or_insert(format!("[ssr-panic] the cancelled render panicked: {m}")); }
+                    match at { Some(k) => format!("done@{k} html={}", enc(&h)), None => "hang".into() }
+                }
+                Err(m) => { verdict = Some(format!("[ssr-panic] blocking render after a cancelled one panicked: {m}")); "panic".into() }
+            }
+        }
         "stream" => match render_stream(&vs, &events) {
             Ok((shell, per, ended)) => {
                 let all: Vec<String> = per.iter().flatten().cloned().collect();
@@ -506,7 +542,8 @@ pub fn generate(args: &Args) -> Vec<String> {
             l.push(format!("assr block {f} {e}"));
             l.push(format!("assr stream {f} {e}"));
             // an incomplete schedule: the last completion never happens
-            if p.len() > 1 { let q = p[..p.len() - 1].join(","); l.push(format!("assr block {f} {q}")); l.push(format!("assr stream {f} {q}")); }
+            if p.len() > 1 { let q = p[..p.len() - 1].join(","); l.push(format!("assr block {f} {q}")); l.push(format!("assr stream {f} {q}")); l.push(format!("assr blockdrop {f} {q}")); }
+            if p.len() == 1 { l.push(format!("assr blockdrop {f} -")); }
         }
     }
     let n = if thorough { 20_000 } else { 700 };
@@ -526,6 +563,10 @@ pub fn generate(args: &Args) -> Vec<String> {
         l.push(format!("assr sync {s} -"));
         l.push(format!("assr block {s} {e}"));
         l.push(format!("assr stream {s} {e}"));
+        if !evs.is_empty() && rng.chance(1, 3) {
+            let cut = rng.below(evs.len());
+            l.push(format!("assr blockdrop {s} {}", if cut == 0 { "-".to_string() } else { evs[..cut].join(",") }));
+        }
     }
     l
 }
@@ -550,5 +591,6 @@ pub fn run(args: &Args) {
         if obs.contains("panic") { sink.count("result:panic"); }
         sink.case(l, &obs, verdict, nt);
     }
+    sink.note("panics_swallowed_in_cancelled_renders", CANCELLED_PANICS.with(|c| c.get()));
     sink.finish();
 }
